@@ -249,6 +249,11 @@ class Backend(ABC):
             List of converted queries
         """
         try:
+            # What an earlier conversion of this rule object left behind must not outlive a failure
+            # of this one (a correlation rule would embed the stale queries).
+            rule._conversion_result = None
+            rule._conversion_states = None
+
             # Initialize processing pipeline if not already done
             if (
                 not hasattr(self, "last_processing_pipeline")
@@ -727,6 +732,7 @@ class Backend(ABC):
             NotImplementedError: If the conversion for the given correlation rule type is not implemented.
         """
         try:
+            rule._conversion_result = None  # see convert_rule()
             if self.correlation_methods is None:
                 raise NotImplementedError("Backend does not support correlation rules.")
             method = method or self.default_correlation_method
